@@ -448,6 +448,21 @@ claim("C07",
       "DESIGN.md §3.2, §6 C07")
 
 
+# ---- additions that apply on top of the claims above
+ENTRYPRED = (" Second tie for the decision predicates the engine's algorithm rests on (SideState.needs_sync, SyncEntry.hash_conflict / "
+             "is_creation / is_deletion / is_rename / is_path_change / is_discarded / is_latest ... 19 predicates, and Runnable's backoff "
+             "step): a fail-closed ast translator regenerates GenEntryPred.v / GenBackoff.v from the current source on every run, "
+             "PropEntryPred.v (70 theorems, no axioms) proves generated = hand model and the laws the engine relies on (with the false "
+             "full-strength readings kept as refutations), and a truth table on real SideState / SyncEntry objects is compared with the "
+             "extracted model.")
+for _pid in ("C03", "C04"):
+    CHECKS[_pid]["text"] += ENTRYPRED
+SB2 = (" Deterministic Stream B additionally enumerates an exhaustive tiny scope of nested-folder histories (streamB-v2-nest: all ordered "
+       "pairs/triples of 12 operations x 8 flavours x both acting sides x 4 systematic schedules); the cases that fail on the unchanged "
+       "tree are listed by case id and guard.")
+for _pid in ("C01", "C03", "C04"):
+    CHECKS[_pid]["text"] += SB2
+
 ALL = ["C%02d" % i for i in range(1, 21)]
 
 
